@@ -573,14 +573,14 @@ def b18_case(spec):
     return res
 
 
-B18_N = dict(quick=12 * 20, thorough=12 * 330)
-B18_BUDGET = dict(quick=22.0, thorough=400.0)
+B18_N = dict(quick=12 * 6, thorough=12 * 200)
+B18_BUDGET = dict(quick=24.0, thorough=400.0)
 
 
 @bounded("B18", ["C18"], "Coarse-grained stress tensor: symmetric, local, linear, isotropic for pure pressure",
          bound="Voronoi tissues of >= 12 cells (36..80 seeds, straight or bowed subdivided interfaces, length scale "
                "0.1/1/25) x grid 1..12 x 3 radii from {0.5,0.75,1} u [1,3] u {4,6} cell radii x random pressures and "
-               "tensions (normal, 15% exact zeros, both signs; 3 radii for grid <= 7, 2 for 8..10, 1 for 11..12); quick 20 tissues, thorough <= 330 tissues "
+               "tensions (normal, 15% exact zeros, both signs; 3 radii for grid <= 7, 2 for 8..10, 1 for 11..12); quick 6 tissues, thorough <= 200 tissues "
                "(time capped); 4-5 stress_tensor evaluations per (tissue, grid, radius)")
 def run_b18(tier, seed):
     specs = [b18_spec(seed, i) for i in range(B18_N[tier])]
@@ -588,7 +588,7 @@ def run_b18(tier, seed):
     specs.sort(key=lambda s: (s["tissue"], -s["grid"]))
     results = _run_pool(b18_case, specs, B18_BUDGET[tier])
     failures, samples, digests = [], [], set()
-    agg = dict(tensors_checked=0, empty=0, covered=0, by_grid={}, build_errors=0)
+    agg = dict(empty=0, covered=0, by_grid={}, build_errors=0)
     evaluations = 0
     coll = []
     for r in results:
@@ -612,16 +612,26 @@ def run_b18(tier, seed):
         raise RuntimeError("B18: no case was evaluated (worker pool failed?)")
     failures = _collapse(failures)
     if coll:
-        coll.sort(key=lambda x: (x[0]["grid"], x[0]["idx"]))
+        coll.sort(key=lambda x: (-x[1]["cells_wrong"], x[0]["grid"], x[0]["idx"]))
         spec0, c0 = coll[0]
-        wrong = sum(c["cells_wrong"] for _, c in coll)
+        per_grid = {}
+        for r in results:
+            c = r.get("collide")
+            if r["evaluated"] and c:
+                g = per_grid.setdefault(c["grid"], dict(cases=0, grid_cells=c["grid"] ** 2, dict_sizes=set(),
+                                                        clause_violations=0))
+                g["cases"] += 1
+                g["dict_sizes"].add(c["dict_size"])
+                g["clause_violations"] += c["cells_wrong"]
+        for g in per_grid.values():
+            g["dict_sizes"] = sorted(x for x in g["dict_sizes"] if x is not None)
         failures.append(dict(
             key="grid>=11-key-collision", name="one tensor per grid cell (grid >= 11)",
             input=dict(spec=spec0),
-            detail="stress_tensor keys grid cell (row, column) by f'{row}{column}': for grid %d the dictionary holds %s "
-                   "tensors for %d grid cells; %d clause violations over %d (tissue, grid>=11) cases of this run when "
-                   "grid cell (r,c) is looked up under that key (as Frame.calculate_stress_tensor does); e.g. %s" % (
-                       c0["grid"], c0["dict_size"], c0["grid"] ** 2, wrong, len(coll), c0["examples"][:2])))
+            detail="stress_tensor keys grid cell (row, column) by f'{row}{column}', which is ambiguous once an index "
+                   "reaches 11 (e.g. (1,10)/(11,0) -> '110', (1,11)/(11,1) -> '111'): observed per grid %s; clause "
+                   "violations are counted when grid cell (r,c) is looked up under that key, as "
+                   "Frame.calculate_stress_tensor does; e.g. %s" % (per_grid, c0["examples"][:2])))
     return dict(evaluations=evaluations, distinct_nontrivial=len(digests),
                 rule="one evaluation = one (tissue, grid, radius): symmetry, zero/-p*I support against independently "
                      "computed centroids, areas and histogram centres, linearity T(a s1 + b s2) = a T(s1) + b T(s2), "
